@@ -896,6 +896,51 @@ def reach_dataset_names(a1: int, d1: int, a2: int, d2: int, a3: int, d3: int) ->
     return dataset_names_check(a1, d1, a2, d2, a3, d3)
 
 
+SETN = [None, 'S']
+
+
+def dataset_names_sets_check(a1, d1, s1, a2, d2, s2):
+    """Two channels with symbolic names, explicit dataset names and channel-set names: the data dictionary is one per
+    logical file, so dataset names are distinct across ALL channels of the file, whatever sets they sit in."""
+    df, (lf,) = new_file(1)
+    add_origin(lf, 'O')
+    spec = [(NAMES2[a1], DSN[d1], SETN[s1]), (NAMES2[a2], DSN[d2], SETN[s2])]
+    chans = []
+    for (nm, ds, sn) in spec:
+        taken = [c.dataset_name for c in chans]
+        try:
+            c = lf.add_channel(nm, dataset_name=ds, set_name=sn)
+        except ValueError:
+            if ds is not None and ds in taken:
+                continue
+            return 1
+        if ds is not None:
+            if ds in taken:
+                return 2
+            if c.dataset_name != ds:
+                return 3
+        chans.append(c)
+    if len(chans) == 2 and chans[0].dataset_name == chans[1].dataset_name:
+        return 4
+    return 0
+
+
+def ob_dataset_names_sets(a1: int, d1: int, s1: int, a2: int, d2: int, s2: int) -> int:
+    """
+    pre: 0 <= a1 <= 1 and 0 <= a2 <= 1 and 0 <= d1 <= 3 and 0 <= d2 <= 3 and 0 <= s1 <= 1 and 0 <= s2 <= 1
+    post: _ == 0
+    """
+    return dataset_names_sets_check(a1, d1, s1, a2, d2, s2)
+
+
+def reach_dataset_names_sets(a1: int, d1: int, s1: int, a2: int, d2: int, s2: int) -> int:
+    """
+    pre: 0 <= a1 <= 1 and 0 <= a2 <= 1 and 0 <= d1 <= 3 and 0 <= d2 <= 3 and 0 <= s1 <= 1 and 0 <= s2 <= 1
+    post: _ != 0
+    """
+    return dataset_names_sets_check(a1, d1, s1, a2, d2, s2)
+
+
 def check_data_check(dti, mode, wB):
     """LogicalFile._check_data: in the high-compatibility mode signed-integer channel data is refused (RuntimeError),
     outside the mode and for the other dtypes it is accepted."""
